@@ -51,7 +51,7 @@ def layouts(draw):
     flags = {'frozen': draw(st.booleans()), 'slots': draw(st.booleans()), 'kw_only': kw_only_cls,
              'eq': draw(st.sampled_from([True, True, False]))}
     flags['order'] = flags['eq'] and draw(st.booleans())
-    return {'fields': fields, 'nbase': nbase, 'flags': flags,
+    return {'fields': fields, 'nbase': nbase, 'flags': flags, 'plain_base': draw(st.sampled_from([False, False, True])),
             'route': draw(st.sampled_from(['decorator', 'decorator_call', 'make_dataclass'])),
             'ns': draw(st.sampled_from(['dcns', 'dcns', 'G'])),
             'values': [draw(gen.tree_descs(4, kinds=VALUE_KINDS, leaf=LEAF, max_depth=2)) for _ in range(n)]}
@@ -94,7 +94,10 @@ def build_class(mod, lay, ns_arg):
         bns = {'__annotations__': {f['name']: object for f in fs[:nb]}}
         bns.update({f['name']: mk_field(mod, f) for f in fs[:nb]})
         # the base is a dataclass of the same family, without slots (keeps the layout legal)
-        base = deco(type(f'B{uid}', (), bns), kw_only=flags['kw_only'], eq=flags['eq'], frozen=flags['frozen'])
+        # (optionally the base is a *plain* dataclasses.dataclass that is not registered itself: its fields
+        #  are inherited; fields made by dataclasses.field carry no pytree_node flag => children by default)
+        base_deco = (lambda c, **kw: dataclasses.dataclass(c, **kw)) if lay.get('plain_base') else deco
+        base = base_deco(type(f'B{uid}', (), bns), kw_only=flags['kw_only'], eq=flags['eq'], frozen=flags['frozen'])
         bases = (base,)
     own = fs[nb:]
     if lay['route'] == 'make_dataclass':
